@@ -1127,6 +1127,7 @@ struct Gen {
                 if (rng.coin(1, 60)) r.fn = "NOSUCH";
                 r.val = niceD(true); r.val2 = rng.range(0, 6) / 2.0;
                 r.box = recBox(j);
+                unitBias(r, s);
                 k.recs.push_back(r);
             }
             return k;
@@ -1168,6 +1169,7 @@ struct Gen {
             r.val = niceD(true); r.val2 = rng.range(0, 6) / 2.0;
             r.rv = rng.range(0, 4);
             r.rs = rng.pick(std::vector<std::string>{ "OPERNUM", "FLUXNUM", "MULTNUM", "SATNUM", "FIPNUM" });
+            unitBias(r, s);
             k.recs.push_back(r);
         }
         return k;
@@ -1369,6 +1371,7 @@ struct Gen {
                 r.rv = pickRv(); r.rs = reg;
                 // the interesting case: no active cell in the region and a source array that does not exist yet
                 if (!iv.empty() && !missing.empty() && rng.coin()) { r.rv = rng.pick(std::vector<int>(iv.begin(), iv.end())); r.b = rng.pick(missing); }
+                else unitBias(r, t);
                 lastTarget = r.a; lastSource = r.b;
                 k.recs.push_back(r);
             }
@@ -1417,6 +1420,55 @@ struct Gen {
     // A keyword that the code must reject because it would read an undefined ACTIVE cell: a non-assigning
     // scalar operation (box or region form), OPERATE or COPY aimed at an existing array that still has an
     // uninitialised (or, for COPY, defaulted) active cell.
+    // OPERATE/OPERATER functions whose parameter is converted to SI (ADDX/MAXLIM/MINLIM: alpha, MULTA: beta) only show
+    // that on a unit-bearing target (PERMX/PERMY/PERMZ/PRESSURE): aim a share of the records there, with a source of
+    // the same storage kind that already has values
+    void unitBias(Rec& r, const RefState& s) {
+        if (!rng.coin(1, 4)) return;
+        std::vector<std::string> units, have;
+        for (const auto& n : DBL_ORDER) if (DBL.at(n).hasUnit) { units.push_back(n); if (s.d.count(n)) have.push_back(n); }
+        if (units.empty()) return;
+        r.a = (!have.empty() && rng.coin(3, 4)) ? rng.pick(have) : rng.pick(units);
+        std::vector<std::string> src;
+        for (const auto& kv : s.d) if (kv.first.rfind(MULT_PREFIX, 0) != 0 && isGlob(kv.first) == isGlob(r.a)) src.push_back(kv.first);
+        r.b = src.empty() ? r.a : rng.pick(src);
+        r.fn = rng.pick(std::vector<std::string>{ "ADDX", "MAXLIM", "MINLIM", "MULTA", "MULTA" });
+        if (r.val2 == 0) r.val2 = 1.5;
+        stats["gen.attempt.operate-unit-bearing-target"]++;
+    }
+
+    // An OPERATER record whose region has no ACTIVE cell is skipped BEFORE its source array is created; a following
+    // ADD/MULTIPLY/MINVALUE/MAXVALUE on that source must then still be rejected ("must already exist").
+    std::vector<KwOp> operaterThenMustExist(const Case& c, int sec, const RefState& s) {
+        std::vector<KwOp> g;
+        std::vector<std::string> srcs, regs = { "MULTNUM" };
+        for (const auto& n : DBL_ORDER) if (DBL.at(n).init && !DBL.at(n).mult && !s.d.count(n)) srcs.push_back(n);
+        if (srcs.empty()) return g;
+        for (const auto& kv : s.i) if (kv.first != "ACTNUM" && refValid(s, kv.second)) regs.push_back(kv.first);
+        KwOp k; k.type = KT::OPRR;
+        Rec r;
+        r.rs = rng.pick(regs);
+        std::set<int> av, iv;
+        if (s.i.count(r.rs)) for (int q = 0; q < s.n(); ++q) (s.act[q] ? av : iv).insert(s.i.at(r.rs)[q].v); else av.insert(1);
+        std::vector<int> cand;
+        for (int v : iv) if (!av.count(v)) cand.push_back(v);
+        r.rv = (!cand.empty() && rng.coin(2, 3)) ? rng.pick(cand) : 9;
+        r.a = pickD(sec, rng.coin()); r.b = rng.pick(srcs);
+        r.fn = rng.pick(std::vector<std::string>{ "COPY", "MULTX", "ADDX", "ABS", "MULTA" });
+        r.val = niceD(true); r.val2 = 1.0;
+        k.recs.push_back(r);
+        g.push_back(k);
+        KwOp f; f.type = KT::SCAL;
+        std::vector<std::string> ops = { "ADD", "MULTIPLY" };
+        if (sec <= 2) { ops.push_back("MINVALUE"); ops.push_back("MAXVALUE"); }
+        f.name = rng.pick(ops);
+        Rec q; q.a = r.b; q.val = niceD(false); q.box = randBox(c, false);
+        f.recs.push_back(q);
+        g.push_back(f);
+        stats["gen.attempt.targeted.operater-empty-region-then-must-exist"]++;
+        return g;
+    }
+
     // Region-keyed operation on a region array that is only partly defined (FLUXNUM/OPERNUM have no default):
     // must be rejected.  The array is made partly defined by an EQUALS on a sub-box when it does not exist yet.
     std::vector<KwOp> partlyDefinedRegion(const Case& c, int sec, const RefState& s) {
@@ -1590,6 +1642,7 @@ struct Gen {
                     std::vector<KwOp> grp;
                     if (seekErr && rng.coin(3, 4)) {
                         if (rng.coin(1, 6)) grp = partlyDefinedRegion(c, sec, s);
+                        else if (rng.coin(1, 5)) grp = operaterThenMustExist(c, sec, s);
                         else if (auto tk = targetedReject(c, sec, s)) grp.push_back(*tk);
                     }
                     if (grp.empty()) grp = randGroup(c, sec, s);
